@@ -72,7 +72,125 @@ func viewLive(l *liveNode) liveView {
 	return v
 }
 
+// runC17BabbleReturn: the instant the node's own babbling loop returns - which
+// is when Suspend() has finished waiting for the routines the loop launched -
+// is taken through a hook (VerifRunBabbleOnce does what Run does for one call
+// of babble()). From that instant on nothing may change in the node, although
+// a live validator keeps gossiping with it. This is the only place where
+// "Suspend waits for every launched routine" is observable from outside: once
+// the Suspended state is merely *visible*, routines that were in flight before
+// may legitimately still be finishing.
+func runC17BabbleReturn(cs CaseSpec) *CaseResult {
+	res := newResult(cs)
+	limit := int(cs.I("limit", 3))
+	seed := cs.Seed*1000 + int64(cs.Index)
+	n := 3
+	var all []*liveNode
+	defer func() {
+		for _, l := range all {
+			func() {
+				defer func() { recover() }()
+				l.Node.Shutdown()
+			}()
+		}
+	}()
+	keys := []*SimKey{}
+	ps := []*peers.Peer{}
+	trs := []*bnet.NetworkTransport{}
+	for i := 0; i < n; i++ {
+		kk := &SimKey{detKey(seed, "c17ret", i)}
+		keys = append(keys, kk)
+		addr := fmt.Sprintf("127.0.0.1:%d", 1+i) // the third validator never runs
+		if i < 2 {
+			tr, err := bnet.NewTCPTransport("127.0.0.1:0", "", 3, 300*time.Millisecond, 300*time.Millisecond, quietLogger())
+			if err != nil {
+				res.inconclusive(err.Error())
+				return res
+			}
+			trs = append(trs, tr)
+			addr = tr.LocalAddr()
+		}
+		ps = append(ps, mkPeer(kk.K, addr, fmt.Sprintf("c17ret%d", i)))
+	}
+	for i := 0; i < 2; i++ {
+		lim := limit
+		if i == 1 {
+			lim = 1000000 // the companion never gives up
+		}
+		l, err := newLiveNodeWith(seed, i, keys[i], trs[i], ps[i], ps, ps, func(c *config.Config) { c.SuspendLimit = lim })
+		if err != nil {
+			res.inconclusive(err.Error())
+			return res
+		}
+		all = append(all, l)
+	}
+	a, b := all[0], all[1]
+	b.Node.RunAsync(true)
+	returned := make(chan liveView, 1)
+	go func() {
+		a.Node.VerifRunBabbleOnce(true)
+		returned <- viewLive(a)
+	}()
+	stop := make(chan struct{})
+	defer close(stop)
+	go func() {
+		i := 0
+		for {
+			select {
+			case <-stop:
+				return
+			default:
+			}
+			for _, l := range all {
+				func() {
+					defer func() { recover() }()
+					done := make(chan struct{})
+					go func() {
+						defer func() { recover(); close(done) }()
+						l.Proxy.SubmitTx([]byte(fmt.Sprintf("c17ret-%d-%s", i, l.Peer.Moniker)))
+					}()
+					select {
+					case <-done:
+					case <-time.After(20 * time.Millisecond):
+					}
+				}()
+			}
+			i++
+			time.Sleep(2 * time.Millisecond)
+		}
+	}()
+	var at liveView
+	select {
+	case at = <-returned:
+	case <-time.After(time.Duration(cs.I("watchdog_s", 40)) * time.Second):
+		res.inconclusive("watchdog: the babbling loop did not return (the node did not suspend itself)")
+		return res
+	}
+	res.Evaluations++
+	res.count("live_babble_loop_returns_observed", 1)
+	if at.state != _state.Suspended {
+		res.inconclusive("the babbling loop returned in state " + at.state.String())
+		return res
+	}
+	// the companion keeps gossiping; several heartbeats and TCP round trips go by
+	time.Sleep(400 * time.Millisecond)
+	after := viewLive(a)
+	res.Evaluations++
+	if after.undetermined != at.undetermined || after.ownSeq != at.ownSeq || after.blocks != at.blocks {
+		res.violate("C17", "C17:live-node-changes-after-its-suspension-completed",
+			fmt.Sprintf("live node %s had finished suspending itself (its babbling loop had returned) and then changed: undetermined %d -> %d, own sequence %d -> %d, blocks %d -> %d", a.Peer.Moniker,
+				at.undetermined, after.undetermined, at.ownSeq, after.ownSeq, at.blocks, after.blocks), map[string]interface{}{"limit": limit})
+		return res
+	}
+	res.digest("c17ret", cs.Seed, cs.Index, limit)
+	res.Sample = map[string]interface{}{"kind": "live node observed from the instant its babbling loop returned", "limit": limit, "undetermined": at.undetermined, "own_sequence": at.ownSeq}
+	return res
+}
+
 func runC17Live(cs CaseSpec) *CaseResult {
+	if cs.Str("mode", "") == "babble-return" {
+		return runC17BabbleReturn(cs)
+	}
 	res := newResult(cs)
 	mode := cs.Str("mode", "lonely-self")
 	limit := int(cs.I("limit", 5))
